@@ -114,8 +114,10 @@ class OrderFacts:
                 tg = s_ast.targets[0] if isinstance(s_ast, ast.Assign) else getattr(s_ast, "target", None)
                 first = tg.elts[0] if isinstance(tg, ast.Tuple) else tg
                 if isinstance(first, ast.Name) and first.id == k:
-                    pt = self.exp.expand(n, c.args[0], 6)    # temporaries / small helpers inlined
-                    s = _step_of_point(pt, self.x0, self.d)
+                    s = _step_of_point(c.args[0], self.x0, self.d)     # the step name as written, if the point is written out
+                    if s is None:
+                        pt = self.exp.expand(n, c.args[0], 6)    # temporaries / small helpers inlined
+                        s = _step_of_point(pt, self.x0, self.d)
                     if s is not None and s not in killed:
                         out.add(("EVAL", k, s))
                 continue
@@ -160,7 +162,7 @@ def rule_downhill(ctx: Ctx) -> List[Ob]:
                            f"`{short(v)}` is not known to be None-or-strictly-below-the-start on every path: a search ending on "
                            f"the iteration cap / a safeguard warning can return a trial worse than the start") +
                           f" [facts at the return: {facts}]"))
-    need(nret >= 3, "line_search: fewer than 3 return statements")
+    need(nret >= 1, "line_search: no return statement")
     # the start value must survive until the comparison seeds: definition sites that kill it
     kills = [n for n in cfg.nodes for k, _, _ in node_defs(n) if k == "f0"]
     seeds = [n for n in cfg.nodes for k, v, how in node_defs(n)
@@ -195,32 +197,68 @@ def rule_lsbud(ctx: Ctx) -> List[Ob]:
     loops = [s for s in walk_no_nested(f.node) if isinstance(s, ast.While)]
     need(len(loops) == 1, "line_search: expected one trial loop")
     lp = loops[0]
-    # guard
-    t = lp.test
-    ctr = None
-    if isinstance(t, ast.Compare) and len(t.ops) == 1 and isinstance(t.ops[0], ast.Lt) and src(t.comparators[0]) == "max_iter" \
-            and isinstance(t.left, ast.Name):
-        ctr = t.left.id
-    elif isinstance(t, ast.Compare) and len(t.ops) == 1 and isinstance(t.ops[0], ast.Gt) and src(t.left) == "max_iter" \
-            and isinstance(t.comparators[0], ast.Name):
-        ctr = t.comparators[0].id
-    obs.append(ob("LSBUD", "trial loop guard is `counter < max_iter`", f, t, ctr is not None, f"guard `{short(t)}`"))
+    # Budget argument, on paths:  (1) the counter is 0 before the loop and only ever incremented by one;  (2) an
+    # evaluation is never reached without the test `counter < max_iter` having succeeded since the last change of the
+    # counter;  (3) between two evaluations the counter is incremented.  Then the k-th evaluation sees
+    # k - 1 <= counter <= max_iter - 1.
+    sites_ = [c for c, why in ut.sites.get(f.qual, []) if any(c is x for x in ast.walk(lp)) and (dotted(c.func) or "").startswith("sf.")]
+    ev_nodes = [cfg.node_of(c) for c in sites_]
+    guards = []       # (test node, label on which counter < max_iter holds, counter name)
+    for n in cfg.nodes:
+        t = n.ast
+        if n.kind == "test" and isinstance(t, ast.Compare) and len(t.ops) == 1:
+            if isinstance(t.ops[0], ast.Lt) and src(t.comparators[0]) == "max_iter" and isinstance(t.left, ast.Name):
+                guards.append((n, True, t.left.id))
+            elif isinstance(t.ops[0], ast.Gt) and src(t.left) == "max_iter" and isinstance(t.comparators[0], ast.Name):
+                guards.append((n, True, t.comparators[0].id))
+            elif isinstance(t.ops[0], ast.GtE) and src(t.comparators[0]) == "max_iter" and isinstance(t.left, ast.Name):
+                guards.append((n, False, t.left.id))
+            elif isinstance(t.ops[0], ast.LtE) and src(t.left) == "max_iter" and isinstance(t.comparators[0], ast.Name):
+                guards.append((n, False, t.comparators[0].id))
+    ctrs = {g[2] for g in guards}
+    ctr = sorted(ctrs)[0] if len(ctrs) == 1 else None
+    obs.append(ob("LSBUD", "trial loop guard is `counter < max_iter`", f, guards[0][0].ast if guards else lp.test, ctr is not None,
+                  f"guard test(s) {[short(g[0].ast) for g in guards]}" if guards else f"no test of a counter against max_iter (loop test `{short(lp.test)}`)"))
     if ctr is not None:
         defs = [(n, v, how) for n in cfg.nodes for k, v, how in node_defs(n) if k == ctr]
-        inits = [(n, v) for n, v, how in defs if how == "bind" and not cfg.in_loop(n, lp)]
+        inits = [(n, v) for n, v, how in defs if not cfg.in_loop(n, lp)]
         incs = [n for n, v, how in defs if cfg.in_loop(n, lp)]
-        ok0 = len(inits) == 1 and isinstance(inits[0][1], ast.Constant) and inits[0][1].value == 0
+        ok0 = len(inits) >= 1 and all(isinstance(v, ast.Constant) and v.value == 0 and not isinstance(v.value, bool) for _, v in inits)
         obs.append(ob("LSBUD", "counter starts at 0", f, inits[0][0].ast if inits else f.node, ok0,
-                      f"initial value {short(inits[0][1]) if inits else '?'}", False))
-        okinc = len(incs) == 1 and isinstance(incs[0].ast, ast.AugAssign) and isinstance(incs[0].ast.op, ast.Add) and \
-            isinstance(incs[0].ast.value, ast.Constant) and incs[0].ast.value.value == 1
-        head = [n for n in cfg.nodes if n.kind == "loophead" and n.owner is lp][0]
-        skip = True
-        if okinc:
-            skip = cfg.exists_path_avoiding(head, head, lambda m: m is incs[0] or not cfg.in_loop(m, lp))
-        obs.append(ob("LSBUD", "every cycle of the trial loop passes `counter += 1`", f, incs[0].ast if incs else lp, okinc and not skip,
-                      "single increment by one on every path back to the guard" if okinc and not skip else
-                      "a cycle can return to the guard without counting (or the counter is advanced differently)"))
+                      f"initial value {[short(v) for _, v in inits]}", False))
+
+        def is_inc(n):
+            a = n.ast
+            if isinstance(a, ast.AugAssign) and isinstance(a.op, ast.Add) and isinstance(a.value, ast.Constant) and a.value.value == 1:
+                return True
+            return isinstance(a, ast.Assign) and isinstance(a.value, ast.BinOp) and isinstance(a.value.op, ast.Add) and \
+                {src(a.value.left), src(a.value.right)} == {ctr, "1"}
+        okinc = bool(incs) and all(is_inc(n) for n in incs)
+        gset = {(g[0], g[1]) for g in guards}
+
+        def no_guard_edge(a, b, lab):
+            return not ((a, lab) in gset)
+        # (2) from the function entry and from every change of the counter, an evaluation is not reachable without a guard success
+        unguarded = []
+        for start in [cfg.entry] + [n for n, _, _ in defs]:
+            r_ = cfg.reachable(start, follow_exc=False, edge_ok=no_guard_edge)
+            r_ = r_ - {start} if start in ev_nodes else r_
+            for e_ in ev_nodes:
+                if e_ in r_ and e_ is not start:
+                    unguarded.append((start, e_))
+        # (3) from an evaluation, the next evaluation is not reachable without an increment
+        uncounted = []
+        for e_ in ev_nodes:
+            succ_ = cfg.reachable(e_, follow_exc=False, avoid=lambda m: m in incs)
+            if any(x in succ_ for x in ev_nodes):
+                uncounted.append(e_)
+        okpath = okinc and not unguarded and not uncounted and bool(ev_nodes)
+        obs.append(ob("LSBUD", "every cycle of the trial loop passes `counter += 1`", f, incs[0].ast if incs else lp, okpath,
+                      "between two evaluations the counter is incremented by one, and no evaluation is reached without `counter < max_iter` "
+                      "having held since the counter last changed" if okpath else
+                      ("the counter is advanced by something else than +1" if not okinc else
+                       f"an evaluation at line {unguarded[0][1].line} is reachable from line {unguarded[0][0].line} without the budget test" if unguarded else
+                       f"two evaluations can follow each other without counting (line {uncounted[0].line})" if uncounted else "no evaluation site")))
     # evaluation sites in the loop
     sites = [c for c, why in ut.sites.get(f.qual, []) if any(c is x for x in ast.walk(lp))]
     evals = [c for c in sites if (dotted(c.func) or "").startswith("sf.")]
